@@ -5,6 +5,7 @@
 import NPModel.Refine.Rows
 import NPModel.Refine.PackFlat
 import NPModel.Refine.Samples
+import NPModel.Refine.PackSorted
 namespace NP.C02
 open NP
 variable {α : Type}
@@ -69,6 +70,26 @@ theorem pack_flat_then_flatten (xs : List (Label × α)) :
 theorem pack_flat_labels_strictly_ascending (xs : List (Label × α)) :
     ((toRuns (sortedByLabel xs)).map (·.1)).Pairwise (fun a b => a.le b = true ∧ a ≠ b) :=
   packFlat_index_strictly_ascending xs
+
+/-- **The packer of the implementation model is these list views**: on a flat table with a
+    monotone index `pack_sorted_df_into_struct` succeeds; its index is the label found at each run
+    offset, and its single chunk views every flat column through the SAME offsets
+    (`packOffsets index`) — so the run-level theorems above (`pack_sorted_then_flatten`,
+    `pack_flat_groups_by_label`, …) are statements about what this function returns, for every
+    column at once, and whole records stay together. -/
+theorem pack_sorted_df_is_list_views (df : FlatDF α) (hm : isMonotone df.index = true)
+    (hc : ∀ col ∈ df.cols, df.index.length ≤ col.2.2.length) (hne : df.cols ≠ []) :
+    packSortedDf df = .ok
+      { index := ((packOffsets df.index).dropLast).map fun o => df.index.getD o (.int 0)
+        col := { ty := df.cols.map fun col => (col.1, col.2.1)
+                 chunks := [packedChunk (packOffsets df.index) df.cols] } } :=
+  packSortedDf_ok df hm hc hne
+
+/-- … and row `i` of that chunk is, field by field, the `i`-th extent of the flat column. -/
+theorem packed_chunk_rows (offs : List Nat) (cols : List (String × String × List α)) :
+    (packedChunk offs cols).rows = (List.range (offs.length - 1)).map fun i =>
+      some (cols.map fun col => (col.1, (segs offs col.2.2).getD i [])) :=
+  packedChunk_rows offs cols
 
 example : (PList.ofRows [some [1, 2], none, some [], some [3]]).rows = [some [1, 2], none, some [], some [3]] := by
   decide
